@@ -210,6 +210,15 @@ def r6_front_ends(ctx):
         for i, c in enumerate(spawns + fw):
             ok = cfg.edges_dominate(ok_e, c.bb)
             ctx.ob("R10.6", "%s:forwarding-after-open#%d" % (label, i), ok, c.site, "forwarding starts only after the open succeeded" if ok else "application data can be forwarded before the open completed")
+        if label == "socks5":
+            # whatever is replied on the failure edge is a constant that is not 'succeeded'
+            reg = cfg.reach([e[1] for e in err_e])
+            for i, c in enumerate([c for c in replies if c.bb in reg]):
+                from engine.anl.casts import const_value as _cv
+                code = _cv(o.of_operand(c.args[1]))
+                okc = code is not None and code != 0
+                ctx.ob("R10.6", "socks5:failure-reply-code-is-a-failure#%d" % i, okc, c.site, "failure edge replies with the constant 0x%02x" % code if okc else
+                       "the reply code sent when the open failed is `%s`: not a non-zero constant — some failure can be answered with 0x00 = 'succeeded', telling the application it is connected" % fmt(o.of_operand(c.args[1]))[:80])
         if fail:
             p = cfg.path([e[1] for e in err_e], body.return_blocks(), avoid_blocks=[c.bb for c in fail])
             ctx.ob("R10.6", "%s:failure-reply" % label, p is None, fail[0].site, "the Err edge passes the failure reply before returning" if p is None else "the open can fail without a failure reply to the application")
@@ -284,6 +293,8 @@ def r8_version_independent_of_padding(ctx):
 
 
 def run(ctx):
+    from . import C02
+    C02.r3_allocator(ctx)    # racing opens on one session get distinct ids (each verdict reaches its own open)
     r8_version_independent_of_padding(ctx)
     r1_r2_server(ctx)
     r3_client_arm(ctx)
